@@ -57,6 +57,14 @@ Spec == Init /\ [][Next]_vars
 
 View == tree
 
+\* State constraint: trees in which some list entry lacks a key leaf (reachable by deleting
+\* a key leaf) are schema-invalid transitory states; transitions into them are explored and
+\* checked, transitions out of them are not (what the API does there is unspecified).
+KeyLeavesSet ==
+  \A l \in ListDP : \A k \in Entries(tree, l) :
+     \A i \in 1..Len(KeyLeafNames[SchemaOf(l)]) :
+        (l \o <<k, KeyLeafNames[SchemaOf(l)][i]>>) \in DOMAIN tree.lv
+
 ----------------------------------------------------------------------------
 TypeOK == WellFormed(tree)
 
